@@ -331,7 +331,7 @@ func famCodec(o *Out, r *RNG, thorough bool) {
 	}
 	decAlpha := []string{"\"", "\\", "a", "n", "x", "u", "U", "0", "1", "7", "8", "f", "F", "g", "'", "`", "\n", " ", "é", "\xff", "4", "3"}
 	for _, s := range []string{"", "\"", "\"\"", "\"a\"", "a", "'a'", "`a`", "'ab'", "`a\"b`", "\"a", "a\"", "\"a\"b\"", "\"a\\\"", "\"\\x4\"", "\"\\x41\"", "\"\\u00e9\"", "\"\\ud800\"", "\"\\U0001F600\"", "\"\\U00110000\"",
-		"\"\\101\"", "\"\\400\"", "\"\\18\"", "\"\\'\"", "\"\\\"\"", "\"a\nb\"", "\"\\\n\"", "\"\\q\"", "\"\xff\"", "\"é\"", "W/\"a\"", " \"a\"", "\"a\" ", "\"\\a\\b\\f\\n\\r\\t\\v\"", "'\\''", "'\"'", "`\\`", "``", "''"} {
+		"\"\\101\"", "\"\\400\"", "\"\\18\"", "\"\\'\"", "\"\\\"\"", "\"a\nb\"", "\"\\\n\"", "\"\\q\"", "\"\xff\"", "\"é\"", "W/\"a\"", "W/", "W", "W/\"", "w/\"a\"", "W/W/\"a\"", " \"a\"", "\"a\" ", "\"\\a\\b\\f\\n\\r\\t\\v\"", "'\\''", "'\"'", "`\\`", "``", "''"} {
 		emitEtagDec(o, s)
 	}
 	for i := 0; i < n; i++ {
